@@ -174,8 +174,9 @@ pub fn model_map(reference: &[Vec<u8>], dicts: &[SampleDict], k: usize, rc: bool
     outs
 }
 
+/// contig names, deliberately not in lexicographic order (outputs must follow the reference's order)
 pub fn contig_names(n: usize) -> Vec<String> {
-    (0..n).map(|i| format!("ctg_{i}")).collect()
+    (0..n).map(|i| format!("{}_ctg{i}", ["z", "a", "m", "B", "k"][i % 5])).collect()
 }
 
 pub struct MapRun {
